@@ -80,8 +80,10 @@ def cases(tier, seed):
                     out.append({'k': 'conc', 'n': n, 'fc': fc, 'fp': fp, 'bound': b, 'shard': [sh, nsh]})
     # hits whose timestamps are far apart (0, 1.5 and 1.6 periods), taken by threads that overtake one another between taking the
     # timestamp and reserving the fire: no two collections may be closer than the period, whatever the order
-    for sh in range(4):
-        out.append({'k': 'conc', 'n': 3, 'fc': '-1', 'fp': '1000', 'bound': 1 if tier == 'quick' else 2, 'shard': [sh, 4], 'spread': [0, 1500, 1600]})
+    # [0, 500, 2000]: the hit at 500 is overtaken by the one at 2000 - it is a period away from the newest fire, but not from the one at 0
+    for spread in ([0, 1500, 1600], [0, 500, 2000], [0, 2000, 500], [900, 0, 1800]):
+        for sh in range(4):
+            out.append({'k': 'conc', 'n': 3, 'fc': '-1', 'fp': '1000', 'bound': 1 if tier == 'quick' else 2, 'shard': [sh, 4], 'spread': spread})
     return out
 
 
